@@ -1,4 +1,4 @@
-SPECIFICATION Spec
+SPECIFICATION Fair
 CONSTANTS
   Clients = {"c1", "c2"}
   Keyspaces = {"ks1", "nope"}
@@ -6,7 +6,7 @@ CONSTANTS
   Attr <- MCAttr
   NHosts = 2
   MaxOps = 4
-  StoreUnderReadLock = @STOREUNDERREAD@
-  SelectIgnoresFailure = @SELECTIGNORES@
-PROPERTIES TableWriteExclusive
+  StoreUnderReadLock = FALSE
+  SelectIgnoresFailure = FALSE
+PROPERTIES UseAnswered
 CHECK_DEADLOCK FALSE
